@@ -504,7 +504,7 @@ func specMacros(ex *Expect, o *Op) {
 		parts := strings.Split(m.Path, ".")
 		xn := parts[0]
 		v, ok := o.X[xn]
-		if !ok || len(parts) != 2 {
+		if !ok || len(parts) < 2 {
 			continue
 		}
 		cur := v
@@ -517,10 +517,24 @@ func specMacros(ex *Expect, o *Op) {
 		if decodeExact([]byte(cur), &mm) != nil || mm == nil {
 			continue
 		}
+		// the macro replaces exactly the addressed property, however deep it sits; the objects on the way stay what they were
+		at := mm
+		okPath := true
+		for _, p := range parts[1 : len(parts)-1] {
+			nxt, isObj := at[p].(map[string]any)
+			if !isObj {
+				okPath = false
+				break
+			}
+			at = nxt
+		}
+		if !okPath {
+			continue
+		}
 		if m.Type == 0 {
-			mm[parts[1]] = "${cas}"
+			at[parts[len(parts)-1]] = "${cas}"
 		} else {
-			mm[parts[1]] = "${crc}"
+			at[parts[len(parts)-1]] = "${crc}"
 		}
 		b, _ := json.Marshal(mm)
 		if ex.MacroX == nil {
